@@ -82,7 +82,8 @@ func genSeq(p seqParams) func(r *rand.Rand, tier string) *Case {
 				c.Phases = append(c.Phases, Phase{Kind: "restart"})
 			}
 		}
-		c.Phases = append(c.Phases, Phase{Kind: "observe_cold", Label: "final"})
+		// a cold process reads everything, and then once more (the first pass refills the caches)
+		c.Phases = append(c.Phases, Phase{Kind: "observe_cold", Label: "final"}, Phase{Kind: "observe", Label: "final-second-read"})
 		return c
 	}
 }
@@ -195,7 +196,7 @@ func oracleSeq(c *Case, res *Result) []Violation {
 		switch {
 		case tx.End == "commit" && tr.Outcome == "committed":
 			m = mm
-		case tx.End == "commit" && len(tr.Ops) == len(tx.Ops) && tr.Outcome != "committed":
+		case tx.End == "commit" && len(tr.Ops) == len(tx.Ops) && tr.Outcome == "failed":
 			add("commit-failed", fmt.Sprintf("%s: commit failed in a fault-free sequential run: %s", tx.Name, tr.CommitErr))
 		}
 	}
@@ -215,7 +216,7 @@ func oracleSeq(c *Case, res *Result) []Violation {
 				if strings.HasPrefix(diff, "cannot open") || strings.HasPrefix(diff, "scan failed") {
 					cls = "final-unreadable/"
 				}
-				add(cls+vtag(sp), fmt.Sprintf("final cold dump of %s (slot %d unique=%v vmode=%d): %s", sp.Name, sp.Slot, sp.Unique, sp.ValueMode, diff))
+				add(cls+vtag(sp), fmt.Sprintf("final dump ("+o.Label+") of %s (slot %d unique=%v vmode=%d): %s", sp.Name, sp.Slot, sp.Unique, sp.ValueMode, diff))
 				continue
 			}
 			if d.Count != int64(len(w)) {
@@ -380,7 +381,7 @@ func init() {
 				var out []StoreSpec
 				for i := 0; i < n; i++ {
 					out = append(out, StoreSpec{Name: fmt.Sprintf("st%d", i), Slot: pick(r, 2, 3, 4, 5, 7, 8, 32), Unique: r.IntN(4) != 0,
-						Balance: r.IntN(3) == 0, ValueMode: r.IntN(4), CacheMode: r.IntN(3)})
+						Balance: r.IntN(3) == 0, ValueMode: r.IntN(5), CacheMode: r.IntN(3)})
 				}
 				return out
 			},
